@@ -48,6 +48,7 @@ type regHandle struct {
 	c    sgbucket.DataStore
 	name int
 	inst int // which registration of the bucket name this handle was opened on
+	url  int // index of the directory it was opened at; -1: in memory
 }
 
 var regSerial int64
@@ -117,6 +118,18 @@ func execReg(in regInput, scratch string) (Case, error) {
 		stale := func(h int) bool {
 			return h < len(handles) && registered(handles[h].name) && handles[h].inst != instOf[handles[h].name]
 		}
+		// does another bucket name have an open handle on the directory handle h was opened at?
+		sharedDir := func(h int) bool {
+			if h >= len(handles) || handles[h].url < 0 {
+				return false
+			}
+			for j, o := range handles {
+				if j != h && o.url == handles[h].url && o.name != handles[h].name && registered(o.name) && o.inst == instOf[o.name] {
+					return true
+				}
+			}
+			return false
+		}
 		doOpen := func(op regOp) Term {
 			mode := map[string]rosmar.OpenMode{"CreateOrOpen": rosmar.CreateOrOpen, "CreateNew": rosmar.CreateNew, "ReOpenExisting": rosmar.ReOpenExisting}[op.Mode]
 			url := []string{rosmar.InMemoryURL, "file:/?mode=memory", "walrus:", "rosmar://" + filepath.Join(dir, regUrls[op.Url]) + "?mode=memory"}[op.MemSp%4]
@@ -133,12 +146,20 @@ func execReg(in regInput, scratch string) (Case, error) {
 				instOf[op.Name]++ // a new registration of this name
 			}
 			ds := b.DefaultDataStore()
-			handles = append(handles, regHandle{b, ds, op.Name, instOf[op.Name]})
+			hurl := op.Url
+			if op.Mem {
+				hurl = -1
+			}
+			handles = append(handles, regHandle{b, ds, op.Name, instOf[op.Name], hurl})
 			cells[fmt.Sprintf("open|%s|mem=%v|ok", op.Mode, op.Mem)] = true
 			return C("RROpened", N(uint64(len(handles)-1)))
 		}
 		for i, op := range in.Ops {
 			var opT, respT Term
+			if op.Kind == "cad" && sharedDir(op.H) {
+				discard = fmt.Sprintf("op %d deletes a directory that a bucket of another name still has open (the model's directories do not outlive their deletion; SQLite's open files do)", i)
+				break
+			}
 			if (op.Kind == "close" || op.Kind == "cad") && stale(op.H) {
 				discard = fmt.Sprintf("op %d closes a stale handle of a bucket name that has been registered again (outside op_ok)", i)
 				break
@@ -297,6 +318,8 @@ func genReg(r *rand.Rand) regInput {
 			url := name*2 + r.Intn(2)
 			if r.Intn(4) > 0 {
 				url = name * 2 // mostly the same URL per name, sometimes the other one
+			} else if r.Intn(3) == 0 {
+				url = (1 - name) * 2 // the directory of the other bucket name: a bucket opened under a new name
 			}
 			mode := pick(r, []string{"CreateOrOpen", "CreateOrOpen", "CreateNew", "ReOpenExisting"})
 			sp := memSp[name]
